@@ -53,7 +53,7 @@ LEVEL_NOTE = (
     "(C07/C08 check it). Judged: decoded_data of every telegram seen by a telegram_received_cb equals the table transcoder's decode (None when the "
     "address has no usable entry, the service carries no value, or decoding fails) and is None without a table; after every telegram the "
     "listening devices, and at the end all devices, have identical remote-value values / payloads / last telegrams and identical public state in "
-    "both instances; the queue of the instance with the table never stalls. Recorded only: number of device callbacks and frames put on the wire."
+    "both instances (also devices that merely share an address with a listener); the value an earlier telegram carried does not change when later telegrams are processed; the table keeps working across stop()/start() of the same XKNX; the queue of the instance with the table never stalls. Recorded only: number of device callbacks and frames put on the wire."
 )
 SHARDS = {"quick": 1, "thorough": 16}
 TIMEOUT = {"quick": 300, "thorough": 3000}
@@ -136,9 +136,52 @@ def build_devices(xknx: Any) -> list[Any]:
     devs.append(Sensor(xknx, "shared_percent", group_address_state=shared, value_type="percent"))
     devs.append(Sensor(xknx, "shared_angle", group_address_state=shared, value_type="angle"))
     devs.append(Sensor(xknx, "shared_raw_ucount", group_address_state=[ga(), shared, ga()], value_type="pulse"))
+    # several devices sharing addresses of complex types; one of each group has an extra state / passive address
+    s1, s2, s3 = ga(), ga(), ga()
+    devs.append(Light(xknx, "xyy_a", group_address_xyy_color=s1))
+    devs.append(Light(xknx, "xyy_b", group_address_xyy_color=s1, group_address_xyy_color_state=s2))
+    devs.append(Light(xknx, "xyy_c", group_address_xyy_color=[s3, s1], group_address_switch=ga()))
+    devs.append(Sensor(xknx, "xyy_sensor", group_address_state=[s1, s2], value_type="color_xyy"))
+    s1, s2 = ga(), ga()
+    devs.append(Light(xknx, "rgbw_a", group_address_rgbw=s1))
+    devs.append(Light(xknx, "rgbw_b", group_address_rgbw=s1, group_address_rgbw_state=s2))
+    devs.append(Sensor(xknx, "rgbw_sensor", group_address_state=[s2, s1], value_type="color_rgbw"))
+    s1, s2 = ga(), ga()
+    devs.append(Light(xknx, "rgb_a", group_address_color=s1))
+    devs.append(Light(xknx, "rgb_b", group_address_color=s1, group_address_color_state=s2))
+    devs.append(ExposeSensor(xknx, "rgb_expose", group_address=s1, value_type="color_rgb"))
+    s1, s2 = ga(), ga()
+    devs.append(ClimateMode(xknx, "status_a", group_address_controller_status=s1))
+    devs.append(ClimateMode(xknx, "status_b", group_address_controller_status=s1, group_address_controller_status_state=s2))
+    devs.append(Sensor(xknx, "status_sensor", group_address_state=[s1, s2], value_type="hvac_status"))
+    s1, s2 = ga(), ga()
+    devs.append(DateTimeDevice(xknx, "dt_a", localtime=False, group_address=s1))
+    devs.append(DateTimeDevice(xknx, "dt_b", localtime=False, group_address=s1, group_address_state=s2))
+    devs.append(TimeDevice(xknx, "time_a", localtime=False, group_address=s2))  # another type on the same address
+    s1 = ga()
+    devs.append(Scene(xknx, "scene_a", group_address=s1, scene_number=1))
+    devs.append(Scene(xknx, "scene_b", group_address=s1, scene_number=2))
+    devs.append(Sensor(xknx, "scene_sensor", group_address_state=s1, value_type="scene_control"))
     for d in devs:
         xknx.devices.async_add(d)
     return devs
+
+
+def _neighbours(devs: list[Any]) -> tuple[dict[int, set[int]], list[int]]:
+    """device index -> indices of devices sharing an address with it; and the shared addresses (raw)."""
+    by_ga: dict[Any, list[int]] = {}
+    for i, d in enumerate(devs):
+        for a in d.group_addresses():
+            by_ga.setdefault(a, []).append(i)
+    neigh: dict[int, set[int]] = {}
+    members: set[int] = set()
+    for idx in by_ga.values():
+        if len(idx) > 1:
+            members.update(idx)
+            for i in idx:
+                neigh.setdefault(i, set()).update(idx)
+    shared = sorted({a.raw for i in members for a in devs[i].group_addresses() if isinstance(a, GroupAddress)})
+    return neigh, shared
 
 
 def _iter_rvs(dev: Any) -> list[Any]:
@@ -191,16 +234,18 @@ def _spec_for(rng: Any, dpt: Any) -> Any:
     return rng.choice(forms)
 
 
-def _make_table(rng: Any, info: dict[int, list[Any]], tree: list[Any], by_shape: dict[Any, list[Any]]) -> tuple[dict[Any, Any], dict[str, int]]:
+def _make_table(rng: Any, info: dict[int, list[Any]], tree: list[Any], by_shape: dict[Any, list[Any]], shared: Any = None) -> tuple[dict[Any, Any], dict[str, int]]:
     table: dict[Any, Any] = {}
     kinds: dict[str, int] = {}
     density = rng.choice((0.3, 0.7, 1.0))
+    shared_matching = rng.random() < 0.75  # addresses shared by several devices: mostly each remote value's own type
     for raw, rvs in sorted(info.items()):
-        if rng.random() > density:
+        is_shared = shared is not None and raw in shared
+        if rng.random() > density and not (is_shared and shared_matching):
             continue
         rv = rng.choice(rvs)
         own = getattr(rv, "dpt_class", None)
-        r = rng.random()
+        r = rng.random() * (0.4 if is_shared and shared_matching else 1.0)
         if own is not None and r < 0.35:
             kind, spec = "matching", _spec_for(rng, own)
         elif own is not None and r < 0.55:
@@ -249,19 +294,20 @@ def _resolve(table: dict[Any, Any]) -> dict[Any, Any]:
 def _payload(rng: Any, kind: str, length: int) -> Any:
     if kind == "binary":
         return DPTBinary(rng.choice((0, 1, 1, 0, 2, 3, 7, 8, 15, 31, 32, 63, rng.randrange(64))))
-    return DPTArray(bytes(rng.choice((0, 1, 2, 5, 0x7F, 0x80, 0xFF, rng.randrange(256), rng.randrange(256))) for _ in range(length)))
+    return DPTArray(bytes(rng.choice((0, 1, 2, 3, 5, 0x7F, 0x80, 0xFF, rng.randrange(256), rng.randrange(256))) for _ in range(length)))
 
 
-def _make_stream(rng: Any, info: dict[int, list[Any]], resolved: dict[Any, Any], n: int) -> list[tuple[Telegram, float]]:
+def _make_stream(rng: Any, info: dict[int, list[Any]], resolved: dict[Any, Any], n: int, shared: list[int] | None = None) -> list[tuple[Telegram, float]]:
     addrs = sorted(info)
     hot = rng.sample(addrs, min(len(addrs), 40))  # repeated addresses: state changes, unchanged values, timers
     out: list[tuple[Telegram, float]] = []
     for _ in range(n):
         r = rng.random()
-        raw = rng.choice(hot) if r < 0.5 else rng.choice(addrs) if r < 0.95 else rng.choice((0x7FC8, 0x0001, 0x7FFF))
+        on_shared = bool(shared) and r < 0.25  # addresses several devices listen on, incl. the extra address of one of them
+        raw = rng.choice(shared) if on_shared else rng.choice(hot) if r < 0.6 else rng.choice(addrs) if r < 0.95 else rng.choice((0x7FC8, 0x0001, 0x7FFF))
         rvs = info.get(raw, [])
         table_tr = resolved.get(raw)
-        q = rng.random()
+        q = rng.random() * (0.6 if on_shared else 1.0)
         if rvs and q < 0.55:
             kind, lens = _rv_shape(rng.choice(rvs))
             payload = _payload(rng, kind, rng.choice(lens))
@@ -350,7 +396,7 @@ def snapshot(dev: Any) -> dict[str, Any]:
 
 
 def _diff(a: dict[str, Any], b: dict[str, Any]) -> list[str]:
-    return [k for k in sorted(set(a) | set(b)) if not same(a.get(k, "<absent>"), b.get(k, "<absent>"))]
+    return [k for k in sorted(set(a) | set(b)) if not _eq(a.get(k, "<absent>"), b.get(k, "<absent>"))]
 
 
 # ---------------------------------------------------------------------------
@@ -369,6 +415,18 @@ class _Instance:
             self.h.xknx.group_address_dpt.set(table)
         self.h.start()
         self.h.settle(advance=3.0)  # initial state reads time out
+
+
+def _eq(a: Any, b: Any) -> bool:
+    """Fast paths (identity, ==) before the structural comparison (NaN-aware, slot-wise)."""
+    if a is b:
+        return True
+    try:
+        if type(a) is type(b) and a == b:
+            return True
+    except Exception:  # noqa: BLE001
+        pass
+    return same(a, b)
 
 
 def _expected_decoded(resolved: dict[Any, Any], t: Telegram) -> Any:
@@ -399,12 +457,24 @@ def _check_decoded(ctx: Any, seen: list[Telegram], start: int, resolved: dict[An
         if got is None:
             ctx.violation("decoded-data-missing-for-configured-address", {**wit, "telegram": str(t), "transcoder": tr.__name__, "expected": repr(val)[:100]},
                           f"{t}: address is configured as {tr.__name__} which decodes {val!r:.60}, but decoded_data is None")
-        elif got.transcoder is not tr or not same(got.value, val):
+        elif got.transcoder is not tr or not _eq(got.value, val):
             ctx.violation("decoded-data-differs-from-configured-type", {**wit, "telegram": str(t), "transcoder": tr.__name__, "expected": repr(val)[:100], "got": f"{got.transcoder.__name__}:{got.value!r}"[:160]},
                           f"{t}: configured {tr.__name__} decodes {val!r:.60}, telegram carries {got.transcoder.__name__}:{got.value!r:.60}")
         else:
             ctx.count("decoded_data_correct")
     return len(seen)
+
+
+def _check_carried(ctx: Any, carried: list[tuple[Telegram, Any, int]], wit: dict[str, Any]) -> None:
+    """What an earlier telegram carried must not change when later telegrams are processed."""
+    for tb, plain, step in carried:
+        ctx.count("earlier_decoded_values_rechecked")
+        now = _plain(tb.decoded_data.value) if tb.decoded_data is not None else None
+        if not _eq(now, plain):
+            ctx.violation("decoded-data-of-earlier-telegram-changes-later", {**wit, "earlier_step": step, "earlier_telegram": str(tb), "carried_then": repr(plain)[:160], "carried_now": repr(now)[:160]},
+                          f"{tb} (step {step}) carried {plain!r:.80}; after later telegrams the same object reads {now!r:.80}")
+        else:
+            ctx.count("earlier_decoded_values_unchanged")
 
 
 def shadow_run(ctx: Any, case: int, n_telegrams: int) -> None:
@@ -418,14 +488,18 @@ def shadow_run(ctx: Any, case: int, n_telegrams: int) -> None:
         a = b = None
         try:
             probe = Harness()
-            info = _address_info(build_devices(probe.xknx))
+            probe_devs = build_devices(probe.xknx)
+            info = _address_info(probe_devs)
+            neigh, shared = _neighbours(probe_devs)
             probe.close()
-            table, kinds = _make_table(rng, info, tree, by_shape)
+            table, kinds = _make_table(rng, info, tree, by_shape, shared)
             resolved = _resolve(table)
             for k, v in kinds.items():
                 ctx.count(f"table_entries_{k}", v)
             ctx.count("tables")
-            stream = _make_stream(rng, info, resolved, n_telegrams)
+            stream = _make_stream(rng, info, resolved, n_telegrams, shared)
+            restart_at = {rng.randrange(n_telegrams) for _ in range(rng.choice((0, 1, 2)))}
+            carried: list[tuple[Telegram, Any, int]] = []  # (telegram seen with the table, plain copy of its decoded value, step)
             n_resolved = len(resolved)
             swap_at = rng.randrange(n_telegrams) if rng.random() < 0.5 else -1
             wit: dict[str, Any] = {"case": case, "seed": ctx.seed, "telegrams": n_telegrams}
@@ -437,13 +511,21 @@ def shadow_run(ctx: Any, case: int, n_telegrams: int) -> None:
             for step, (t, dt) in enumerate(stream):
                 ctx.ev()
                 if step == swap_at:
-                    table2, _k = _make_table(rng, info, tree, by_shape)
+                    table2, _k = _make_table(rng, info, tree, by_shape, shared)
                     if rng.random() < 0.5:
                         b.h.xknx.group_address_dpt.clear()
                         resolved = {}
                     b.h.xknx.group_address_dpt.set(table2)
                     resolved = {**resolved, **_resolve(table2)}
                     ctx.count("table_replaced_mid_stream")
+                if step in restart_at:
+                    # the user stops and starts the same XKNX object; the table was set once and never cleared
+                    for inst in (a, b):
+                        current[0] = inst.h.loop
+                        inst.h.stop()
+                        inst.h.start()
+                        inst.h.settle(advance=3.0)
+                    ctx.count("stop_start_cycles")
                 w = {**wit, "step": step, "telegram": str(t), "table_entry": repr(next((v for k, v in table.items() if _same_addr(k, t.destination_address)), None))[:80],
                      "resolved_transcoder": getattr(resolved.get(t.destination_address.raw), "__name__", None)}
                 for inst in (a, b):
@@ -460,10 +542,18 @@ def shadow_run(ctx: Any, case: int, n_telegrams: int) -> None:
                     break
                 ctx.count("telegrams_fed")
                 seen_a = _check_decoded(ctx, a.h.seen, seen_a, None, w)
+                first_new = seen_b
                 seen_b = _check_decoded(ctx, b.h.seen, seen_b, resolved, w)
-                # listeners of this address
-                la = list(a.h.xknx.devices.devices_by_group_address(t.destination_address))
-                lb = list(b.h.xknx.devices.devices_by_group_address(t.destination_address))
+                for tb in b.h.seen[first_new:]:
+                    if tb.decoded_data is not None:
+                        carried.append((tb, _plain(tb.decoded_data.value), step))
+                _check_carried(ctx, carried[-12:-1] if len(carried) > 1 else [], w)
+                # listeners of this address and every device sharing an address with one of them
+                listeners = {i for i, d in enumerate(a.devs) if d in set(a.h.xknx.devices.devices_by_group_address(t.destination_address))}
+                watch = sorted(listeners | {j for i in listeners for j in neigh.get(i, ())})
+                ctx.count("neighbour_states_compared", len(watch) - len(listeners))
+                la = [a.devs[i] for i in watch]
+                lb = [b.devs[i] for i in watch]
                 kind = "decoded" if _expected_decoded(resolved, t) is not None else "undecoded"
                 for da, db in zip(la, lb, strict=True):
                     ctx.count("device_states_compared")
@@ -482,6 +572,7 @@ def shadow_run(ctx: Any, case: int, n_telegrams: int) -> None:
                 ctx.distinct((type(rvs[0]).__name__ if rvs else "nobody", getattr(own, "dpt_main_number", None), rel, kind, type(t.payload).__name__, t.direction.name))
                 ctx.count(f"telegrams_table_{rel}")
             if not stalled:
+                _check_carried(ctx, carried, {**wit, "at": "end of stream"})
                 # every device, and the side effects
                 for da, db in zip(a.devs, b.devs, strict=True):
                     ctx.count("final_device_states_compared")
@@ -529,8 +620,8 @@ def run(ctx: Any) -> None:
     )
     ctx.require("tables", "telegrams_fed", "telegrams_seen_by_callbacks", "decoded_data_correct", "decoded_data_none_as_expected", "device_states_compared",
                 "device_states_compared_decoded", "device_states_equal", "final_device_states_compared", "telegrams_table_same", "telegrams_table_related",
-                "telegrams_table_unrelated", "telegrams_table_no-entry", "table_entries_matching", "table_entries_sub-or-superclass", "table_entries_invalid-spec")
-    cases = ctx.scale(8, 320)
+                "telegrams_table_unrelated", "telegrams_table_no-entry", "neighbour_states_compared", "earlier_decoded_values_rechecked", "stop_start_cycles", "table_entries_matching", "table_entries_sub-or-superclass", "table_entries_invalid-spec")
+    cases = ctx.scale(20, 480)
     n = ctx.scale(260, 300)
     for case in range(cases):
         if ctx.mine(case):
